@@ -16,6 +16,16 @@ Payloads (grammar shared with lean/UPVerif/Drv/C08.lean):
         C = grounder:  (ground-names (names n*) (actions (a name ((inst survived arg*)*))*))   the naming requests
         otherwise:     (declared (names n*) (orig n*))    the declared names of the compiled / original problem
         not compiled:  (skip status)
+  (wfcheck C <problem> (M k))                               C as above (not t2s / d2p); M ::= none | drop-fluent | drop-object | drop-type
+                                                                 | clash-name | dup-action | drop-param | goal-param | alien-fluent
+                                                                 | alien-object | foreign-cost
+        the REAL compiled problem of C, damaged in place by mutation M (k selects where), is judged by the oracle's
+        well-formedness predicate and sent to the model as (wf <problem>): the Lean predicate WF.wfProblem must agree
+        (verdict and first failing clause)
+  (model C <problem>)                                       C ::= cer | dcr | sir | btr | qr   (the compilers with a Lean model)
+        sent to the model as (compile-model C <problem>): the NAMED model's compiled problem in C06's canonical view plus the
+        action names in order with their origins, the fluent names, the Lean judgement, back-map check and target check —
+        compared with the same observations of the real compilation
 """
 import itertools
 import warnings
@@ -42,13 +52,15 @@ from unified_planning.model.metrics import MinimizeActionCosts
 from unified_planning.model.operators import OperatorKind as OK
 from unified_planning.plans import ActionInstance, SequentialPlan
 
+import complib
 import sexp
 import upp
 import upx
 
 ID = "C08"
 GEN = []
-CORR_NAME = "fresh-name-choices+grounded-action-names+result-decision-table"
+EXTRA_PROPS = ["UPVerif.Props.C08Models"]
+CORR_NAME = "fresh-name-choices+grounded-action-names+result-decision-table+wellformedness-judgement+named-compiler-models"
 RULE = ("three streams. (1) fresh: 0-8 initial names (registered as fluent / object / action / user type) and 1-8 requests "
         "(base, 0-3 parameter names, optional / empty trailing info) over an adversarial identifier pool (stems joined with '_', "
         "counter suffixes _0/_1/_0_0, mixed case, digits, names that are joins / prefixes / mangled forms of one another); every "
@@ -65,7 +77,22 @@ RULE = ("three streams. (1) fresh: 0-8 initial names (registered as fluent / obj
         "model's uniqueness check. (3) result: all combinations of problem / map_back / plan_back with a random action map "
         "and plan. Non-trivial = a fresh request whose joined base is already taken (counter search entered), a grounding in "
         "which two instances share their joined name or a counter suffix was needed, another compilation that declared names "
-        "the input did not have, or a result case that reaches a back-conversion of a non-empty plan.")
+        "the input did not have, or a result case that reaches a back-conversion of a non-empty plan. (4) wfcheck: the REAL compiled problem of two of "
+        "the compilations of every stream-2 problem, once as it is and once damaged in place by one of 10 mutations (a fluent / "
+        "object / leaf user type dropped from the declarations, an action renamed into a declared name or duplicated, a parameter "
+        "dropped from an action, a goal mentioning a parameter, a goal over a same-named fluent of another type / a same-named "
+        "object of another type, an action cost for an action that is not in the problem), is judged by the oracle's "
+        "well-formedness predicate and, in the wire format, by the Lean judgement WF.wfProblem: verdict and first failing clause "
+        "must agree. (5) model: problems of C06's generator for the five compilers that have a Lean model (conditional-effects, "
+        "disjunctive-conditions, state-invariants, bounded-types, quantifiers removers; half of the disjunctive ones with a "
+        "disjunctive goal), renamed into the adversarial pool with planted neighbours (<action>_0 / _1 / _0_0, dcrm_fake_goal / "
+        "dcrm_fake_action / ..._0); the NAMED model's compiled problem (C06's canonical view: origin, parameters, sorted "
+        "preconditions, effects of every action; goals; trajectory constraints; initial state) plus the action names IN ORDER with "
+        "their origins, the fluent names, the Lean judgement on the model's output, the back-map check and the target check are "
+        "compared with the same observations of the real compilation. Deterministic cases on every run: negation chains "
+        "(a, a_0, a_1, not_a next to not_a_0 / not_a_0_0 / not_a_1_0 in every order of first use) and grounding clashes "
+        "(move(a_b,c) / move(a,b_c) next to a declared move_a_b_c_0 / _1 as action, fluent or object). Non-trivial additionally = "
+        "a damaged problem judged ill-formed, a model case whose compilation handed out a name that is not its origin's.")
 ASSUMPTIONS = [
     "environment flag error_used_name = True (the library default): a name is 'unique' when no two of {user types, objects, "
     "fluents, actions} of one problem share it; parameter and variable names are scoped to their action / quantifier",
@@ -89,6 +116,12 @@ ASSUMPTIONS = [
     "condition mentions the variable of its own forall cannot be removed by ConditionalEffectsRemover: it is rejected, though with "
     "UPUnboundedVariablesError (conditional_effects_remover.py:256 add_precondition) instead of the documented "
     "UPProblemDefinitionError — counted as a documented rejection",
+    "trajectory constraints that Problem.add_trajectory_constraint simplifies to a Boolean constant (Sometime(TRUE), Always(a or "
+    "not a)) are generated: the repaired add_trajectory_constraint accepts the constants it stores itself "
+    "(notes/patches/C08-constant-trajectory-constraint.patch)",
+    "well-formedness as judged by the oracle (wf_report) and by the Lean predicate: a variable (bound by a quantifier or a forall "
+    "effect) must have a declared type, but variables are not checked to be in the scope of their binder; a fluent must be "
+    "applied to as many arguments as its signature has (the library's constructors guarantee it)",
     "the back-conversion clause is exercised with a sequential plan listing one ground instance of every compiled action; for "
     "action-mapping compilers every mapped-back instance must name an action of the ORIGINAL problem with as many actual "
     "parameters as that action has formal ones",
@@ -97,9 +130,22 @@ MODELLED = [
     "modelled by hand (tied by correspondence): utils.get_fresh_name; the naming discipline of GrounderHelper / "
     "create_action_with_given_subs (repaired: names already handed out are seen); CompilerResult.__post_init__ decision table; "
     "SequentialPlan.replace_action_instances",
-    "modelled not verified: the transformations of the compilers themselves (covered by the property oracle on the real code "
-    "only: uniqueness of names, declaredness of every referenced symbol, availability of plan back-conversion); which ground "
-    "instances survive simplification is an observation of the real run handed to the model",
+    "modelled by hand (tied by correspondence, streams wfcheck / model): the well-formedness judgement WF.wfProblem "
+    "(Core/WellFormed.lean) and the naming of the compiled actions / of the fake goal fluent by ConditionalEffectsRemover, "
+    "DisjunctiveConditionsRemover, StateInvariantsRemover, BoundedTypesRemover, QuantifiersRemover (Core/Compile/Named.lean, on "
+    "top of the compiler models of C06/C07, Core/Compile/*.lean)",
+    "modelled not verified: the transformations of the OTHER compilers (grounder's simplification, negative-conditions, "
+    "usertype-fluents, trajectory-constraints, undefined-initial-numeric removers, timed-to-sequential, durative-to-processes: "
+    "covered by the property oracle on the real code only: uniqueness of names, declaredness of every referenced symbol, "
+    "availability of plan back-conversion); which ground instances survive simplification is an observation of the real run "
+    "handed to the model; the quality metrics of a compiled problem (the five models carry them over unchanged, the theorems "
+    "are stated for metric-free problems)",
+    "the simplifier and the DNF walker are parameters of the theorems of Props/C08Models.lean (properties C11 / C12 own their "
+    "models); 'introduces no new symbol' and 'creates no quantifier' are PROVED for C11's simplifier model as the driver "
+    "configures it (no problem) and for C12's DNF walker, so the preservation theorems and the quantifiers-remover target hold "
+    "for the models exactly as the check runs them; still assumed for two targets: the simplifier creates no disjunction "
+    "(disjunctive-conditions remover) and no state invariant out of a trajectory constraint of the accepted form "
+    "(state-invariants remover)",
 ]
 BUDGET_S = {"quick": 55, "thorough": 500}
 
@@ -417,6 +463,13 @@ def gen_planted(rng):
         for _ in range(rng.choice([1, 2, 3])):
             c = rng.choice(["sometime", "sometime", "at-most-once", "sometime-before", "sometime-after"])
             traj.append([c, e()] if c in ("sometime", "at-most-once") else [c, e(), e()])
+        if rng.random() < 0.5:
+            # a constraint that Problem.add_trajectory_constraint simplifies to a Boolean constant (and stores as such): the
+            # compilers that rebuild the problem add the stored constant back
+            x = e()
+            traj.insert(rng.randrange(len(traj) + 1),
+                        rng.choice([["sometime", ["b", "T"]], ["always", ["b", "T"]], ["at-most-once", ["b", "F"]],
+                                    ["always", ["or", x, ["not", x]]], ["sometime-before", ["b", "F"], x]]))
         acts = [["action", n, [], ["pre"], ["effs", ["eff", "assign", e(), ["b", "T"], ["b", "T"], []]]]
                 for n, kd in zip(names, kinds) if kd == "action"]
         acts.append(["action", u + "_act", [], ["pre"], ["effs"] + [["eff", "assign", ["fl", r], ["b", rng.choice(["T", "F"])], ["b", "T"], []] for r in refs]])
@@ -475,6 +528,44 @@ def gen_planted(rng):
     return ["problem", "p", ["types"], ["objects"], ["fluents"] + [[r, ["b", "F"]] for r in refs], ["init"],
             ["actions", act, act2], ["goals"] + [["not", ["fl", r]] for r in refs if rng.random() < 0.5] + [["fl", refs[-1]]],
             ["traj"], ["metrics"]]
+
+
+def plant_suffix_names(rng, ps, always=False):
+    """declares things named <J>_<k> for small k (as fluent, object or parameterless action), where J is a name the grounder
+    hands out more than once (two ground instances whose flattened names coincide: move(a_b,c) / move(a,b_c)) or a flattened
+    name that is itself declared: the counter search of get_fresh_name must then dodge the names handed out so far
+    (used_names) AND the names of the problem, whichever comes first, in ONE loop"""
+    if not always and rng.random() < 0.4:
+        return ps
+    declared = set(global_names(ps))
+    joins = {}
+    try:
+        for a, args in upp.ground_instances(ps):
+            if args:
+                j = "_".join([a] + list(args))
+                joins[j] = joins.get(j, 0) + 1
+    except Exception:
+        return ps
+    hot = sorted(j for j, c in joins.items() if c >= 2 or j in declared)
+    if not hot:
+        return ps
+    rng.shuffle(hot)
+    types = [n for n, _ in upp.get(ps, "types")]
+    objs, fls, acts = list(upp.get(ps, "objects")), list(upp.get(ps, "fluents")), list(upp.get(ps, "actions"))
+    for j in hot[:rng.choice([1, 1, 2])]:
+        for suffix in rng.sample(["_0", "_1", "_0_0", "_2"], rng.choice([1, 1, 2, 3])):
+            n = j + suffix
+            if n in declared:
+                continue
+            declared.add(n)
+            kd = rng.choice(["fluent", "action", "object"] if types else ["fluent", "action"])
+            if kd == "fluent":
+                fls.append([[n, "bool", []], ["b", "F"]])
+            elif kd == "object":
+                objs.append([n, rng.choice(types)])     # (a new object also adds ground instances: fine)
+            else:
+                acts.append(["action", n, [], ["pre"], ["effs"]])
+    return _with(_with(_with(ps, "objects", objs), "fluents", fls), "actions", acts)
 
 
 def build(ps):
@@ -545,13 +636,19 @@ def all_names(P):
     return out
 
 
-def wellformed(P):
-    """None, or a string naming what is wrong with problem P"""
+WF_CLAUSES = ("names", "object-type", "fluent-decl", "init", "action", "goal", "traj", "metric")
+
+
+def wf_report(P):
+    """(clause, message) of the FIRST failing clause of well-formedness, or None.  Written from the property text (every
+    name unique; every referenced fluent, object, parameter and type declared) and from what the library's constructors
+    demand (a fluent is applied to as many arguments as its signature has); the clauses are visited in the order of
+    WF_CLAUSES so that the Lean judgement (Core/WellFormed.lean, wfVerdict) can be compared clause by clause."""
     names = all_names(P)
     seen = {}
     for k, n in names:
         if n in seen:
-            return f"name {n!r} declared twice ({seen[n]} and {k})"
+            return "names", f"name {n!r} declared twice ({seen[n]} and {k})"
         seen[n] = k
     fluents = set(P.fluents)
     objects = set(P.all_objects)
@@ -568,12 +665,17 @@ def wellformed(P):
             if t == OK.FLUENT_EXP:
                 if x.fluent() not in fluents:
                     return f"{where}: fluent {x.fluent().name!r} is not declared"
+                if len(x.args) != len(x.fluent().signature):
+                    return f"{where}: fluent {x.fluent().name!r} applied to {len(x.args)} arguments"
             elif t == OK.OBJECT_EXP:
                 if x.object() not in objects:
                     return f"{where}: object {x.object().name!r} is not declared"
             elif t == OK.PARAM_EXP:
                 if params is None or x.parameter() not in params:
                     return f"{where}: parameter {x.parameter().name!r} is not a parameter of the action"
+            elif t == OK.VARIABLE_EXP:
+                if not ty_ok(x.variable().type):
+                    return f"{where}: type {x.variable().type} of variable {x.variable().name} is not declared"
             elif t in (OK.EXISTS, OK.FORALL):
                 for v in x.variables():
                     if not ty_ok(v.type):
@@ -603,61 +705,76 @@ def wellformed(P):
                     return f"{where}: type of forall variable {v.name} is not declared"
         return None
 
+    for o in P.all_objects:
+        if not ty_ok(o.type):
+            return "object-type", f"object {o.name}: type {o.type} is not declared"
     for f in P.fluents:
         for t in [f.type] + [p.type for p in f.signature]:
             if not ty_ok(t):
-                return f"fluent {f.name}: type {t} is not declared"
-    for o in P.all_objects:
-        if not ty_ok(o.type):
-            return f"object {o.name}: type {o.type} is not declared"
-    for a in P.actions:
-        ps = set(a.parameters)
-        for p in a.parameters:
-            if not ty_ok(p.type):
-                return f"action {a.name}: type {p.type} of parameter {p.name} is not declared"
-        r = walk_transition(a, ps, f"action {a.name}")
-        if r:
-            return r
-    for attr in ("processes", "events"):
-        for a in getattr(P, attr, []):
-            r = walk_transition(a, set(a.parameters), f"{attr[:-1]} {a.name}")
+                return "fluent-decl", f"fluent {f.name}: type {t} is not declared"
+        d = P.fluents_defaults.get(f)
+        if d is not None:
+            r = walk(d, None, f"default value of {f.name}")
             if r:
-                return r
-    for g in P.goals:
-        r = walk(g, None, "goal")
-        if r:
-            return r
-    for tc in P.trajectory_constraints:
-        r = walk(tc, None, "trajectory constraint")
-        if r:
-            return r
+                return "fluent-decl", r
+    for f, d in P.fluents_defaults.items():
+        if f not in fluents:
+            return "fluent-decl", f"default value for undeclared fluent {f.name!r}"
     for k, v in P.explicit_initial_values.items():
         for x in (k, v):
             r = walk(x, None, "initial value")
             if r:
-                return r
-    for f, d in P.fluents_defaults.items():
-        if f not in fluents:
-            return f"default value for undeclared fluent {f.name!r}"
+                return "init", r
+    for a in P.actions:
+        ps = set(a.parameters)
+        for p in a.parameters:
+            if not ty_ok(p.type):
+                return "action", f"action {a.name}: type {p.type} of parameter {p.name} is not declared"
+        r = walk_transition(a, ps, f"action {a.name}")
+        if r:
+            return "action", r
+    for attr in ("processes", "events"):
+        for a in getattr(P, attr, []):
+            r = walk_transition(a, set(a.parameters), f"{attr[:-1]} {a.name}")
+            if r:
+                return "action", r
+    for g in P.goals:
+        r = walk(g, None, "goal")
+        if r:
+            return "goal", r
+    for tc in P.trajectory_constraints:
+        r = walk(tc, None, "trajectory constraint")
+        if r:
+            return "traj", r
     for m in P.quality_metrics:
         if isinstance(m, MinimizeActionCosts):
             for a, c in m.costs.items():
                 if a not in P.actions:
-                    return f"metric: cost for action {a.name!r} which is not in the problem"
+                    return "metric", f"metric: cost for action {a.name!r} which is not in the problem"
                 if c is not None:
                     r = walk(c, set(a.parameters), f"metric cost of {a.name}")
                     if r:
-                        return r
+                        return "metric", r
+            if m.default is not None:
+                r = walk(m.default, None, "metric default cost")
+                if r:
+                    return "metric", r
         elif hasattr(m, "expression"):
             r = walk(m.expression, None, "metric")
             if r:
-                return r
+                return "metric", r
         elif hasattr(m, "goals"):
             for g in m.goals:
                 r = walk(g, None, "metric goal") if not isinstance(g, tuple) else walk(g[1], None, "metric goal")
                 if r:
-                    return r
+                    return "metric", r
     return None
+
+
+def wellformed(P):
+    """None, or a string naming what is wrong with problem P"""
+    r = wf_report(P)
+    return None if r is None else r[1]
 
 
 def instance_of(P, a):
@@ -768,9 +885,9 @@ def shrink_problem(ps):
 
 
 def shrink(payload):
-    if payload[0] == "compile":
+    if payload[0] in ("compile", "model"):
         for ps in shrink_problem(payload[2]):
-            yield ["compile", payload[1], ps]
+            yield [payload[0], payload[1], ps]
     elif payload[0] == "fresh":
         init, reqs = payload[1], payload[2]
         for i in range(1, len(init)):
@@ -784,11 +901,294 @@ def shrink(payload):
 
 
 # ------------------------------------------------------------------------------------------------
+# stream 4: the well-formedness judgement itself (oracle's predicate vs Lean's WF.wfProblem) on real compiled problems
+# ------------------------------------------------------------------------------------------------
+
+MUTATIONS = ["drop-fluent", "drop-object", "drop-type", "clash-name", "dup-action", "drop-param", "goal-param", "alien-fluent",
+             "alien-object", "foreign-cost"]
+
+
+def mutate(Q, mut, k):
+    """damages the real problem Q in place (through its containers, the way a defective compiler would leave it);
+    returns False when the mutation does not apply to Q"""
+    env = Q.environment
+    em, tm = env.expression_manager, env.type_manager
+    if mut == "none":
+        return True
+    if mut == "drop-fluent":
+        if not Q._fluents:
+            return False
+        f = Q._fluents[k % len(Q._fluents)]
+        Q._fluents.remove(f)
+        Q._fluents_defaults.pop(f, None)
+        return True
+    if mut == "drop-object":
+        if not Q._objects:
+            return False
+        Q._objects.pop(k % len(Q._objects))
+        return True
+    if mut == "drop-type":
+        fathers = set(t.father for t in Q._user_types if t.father is not None)
+        leaves = [t for t in Q._user_types if t not in fathers]
+        if not leaves:
+            return False
+        Q._user_types.remove(leaves[k % len(leaves)])
+        return True
+    if mut == "clash-name":
+        acts = list(Q.actions)
+        others = [n for kd, n in all_names(Q)]
+        if not acts or len(others) < 2:
+            return False
+        a = acts[k % len(acts)]
+        cand = [n for n in others if n != a.name]
+        a.name = cand[(k // 7) % len(cand)]
+        return True
+    if mut == "dup-action":
+        if not Q._actions:
+            return False
+        Q._actions.append(Q._actions[k % len(Q._actions)].clone())
+        return True
+    if mut == "drop-param":
+        acts = [a for a in Q.actions if len(a.parameters) > 0]
+        if not acts:
+            return False
+        acts[k % len(acts)]._parameters.popitem()
+        return True
+    if mut == "goal-param":
+        ps = [p for a in Q.actions for p in a.parameters if p.type.is_user_type()]
+        if not ps:
+            return False
+        pe = em.ParameterExp(ps[k % len(ps)])
+        Q._goals.append(em.Equals(pe, pe))
+        return True
+    if mut == "alien-fluent":
+        if not Q._fluents:
+            return False
+        f = Q._fluents[k % len(Q._fluents)]
+        ty = tm.RealType() if (f.type.is_int_type() and f.type == tm.IntType()) else tm.IntType()
+        alien = Fluent(f.name, ty, environment=env)
+        Q._goals.append(em.LE(em.FluentExp(alien), em.Int(0)))
+        return True
+    if mut == "alien-object":
+        if not Q._objects:
+            return False
+        o = Q._objects[k % len(Q._objects)]
+        others = [t for t in Q._user_types if t != o.type]
+        ty = others[(k // 5) % len(others)] if others else tm.UserType("C08_alien_type")
+        oe = em.ObjectExp(Object(o.name, ty, env))
+        Q._goals.append(em.Equals(oe, oe))
+        return True
+    if mut == "foreign-cost":
+        names = set(n for _, n in all_names(Q))
+        n = "C08_foreign"
+        while n in names:
+            n += "_"
+        Q._metrics.append(MinimizeActionCosts({InstantaneousAction(n, _env=env): em.Int(1)}, environment=env))
+        return True
+    raise ValueError(mut)
+
+
+def run_wfcheck(payload):
+    """-> (impl answer, model payload)"""
+    _, cname, ps, (mut, k) = payload
+    P, _ = build_for(cname, ps)
+    if wellformed(P) is not None:
+        return ["skip", "input-ill-formed"], ["skip", "input-ill-formed"]
+    try:
+        P.kind
+    except Exception:
+        return ["skip", "kind-raises"], ["skip", "kind-raises"]
+    st, res = run_compile(cname, P)
+    if st != "ok" or res.problem is None:
+        return ["skip", st], ["skip", st]
+    Q = res.problem
+    if not mutate(Q, mut, int(k)):
+        return ["skip", "mutation-not-applicable"], ["skip", "mutation-not-applicable"]
+    try:
+        enc = upp.enc_problem(Q)
+    except Exception:
+        return ["skip", "not-in-wire-format"], ["skip", "not-in-wire-format"]
+    r = wf_report(Q)
+    return ["wf", "T", "_"] if r is None else ["wf", "F", r[0]], ["wf", enc]
+
+
+# ------------------------------------------------------------------------------------------------
+# stream 5: the named compiler models (Core/Compile/Named.lean) against the real compilers
+# ------------------------------------------------------------------------------------------------
+
+MODEL_COMPILER = {"cer": "cond", "dcr": "disj", "sir": "inv", "btr": "bounded", "qr": "quant"}
+
+
+def adversarial_renaming(rng, ps, comp):
+    """a renaming of the problem's types / objects / fluents / actions into the adversarial pool, plus planted neighbours:
+    something named <action>_0 / <action>_1 (the counter suffixes the compilers hand out) and, for the disjunctive-conditions
+    remover, things named like its fake goal fluent / fake actions"""
+    pool = name_pool(rng)
+    rng.shuffle(pool)
+    syms = {"type": [n for n, _ in upp.get(ps, "types")], "obj": [n for n, _ in upp.get(ps, "objects")],
+            "fl": [ref[0] for ref, _ in upp.get(ps, "fluents")], "act": [a[1] for a in upp.get(ps, "actions")]}
+    R = {"type": {}, "obj": {}, "fl": {}, "act": {}, "par": {}}
+    rate = rng.choice([0.0, 0.3, 0.6, 0.9])
+    taken = set(sum(syms.values(), []))
+
+    def put(k, n, m):
+        if m in taken or n in R[k]:
+            return False
+        R[k][n] = m
+        taken.add(m)
+        taken.discard(n)
+        return True
+    for k in ("act", "obj", "fl", "type"):
+        for n in syms[k]:
+            if rng.random() < rate and pool:
+                put(k, n, pool.pop())
+    free = [(k, n) for k in ("act", "obj", "fl") for n in syms[k] if n not in R[k]]
+    rng.shuffle(free)
+    if syms["act"] and rng.random() < 0.6:
+        a = rng.choice(syms["act"])
+        an = R["act"].get(a, a)
+        for suffix in rng.sample(["_0", "_1", "_0_0", "_2"], rng.choice([1, 2, 3])):
+            if free:
+                k, n = free.pop()
+                put(k, n, an + suffix)
+    if comp == "dcr" and rng.random() < 0.5:
+        for m in rng.sample(["dcrm_fake_goal", "dcrm_fake_action", "dcrm_fake_action_0", "dcrm_fake_goal_0",
+                             "dcrm_fake_action_1"], rng.choice([1, 2, 3])):
+            if free:
+                k, n = free.pop()
+                put(k, n, m)
+    return R
+
+
+def gen_model_case(rng, comp):
+    for _try in range(60):
+        c = complib.gen_case(rng, comp, 1)
+        if c is None:
+            continue
+        ps = c[3]
+        if comp == "dcr" and rng.random() < 0.5:
+            # a disjunctive goal: the remover's fake goal fluent and fake actions are created and named
+            bools = [ref for ref, _ in upp.get(ps, "fluents") if ref[1] == "bool" and not ref[2]]
+            if len(bools) >= 2:
+                r1, r2 = rng.sample(bools, 2)
+                lits = [["fl", r1], rng.choice([["fl", r2], ["not", ["fl", r2]]])] + ([["not", ["fl", r1]]] if rng.random() < 0.3 else [])
+                ps = _with(ps, "goals", upp.get(ps, "goals")[:rng.choice([0, 1])] + [["or"] + lits])
+        if comp in ("sir", "qr") and rng.random() < 0.5:
+            # a universally quantified state invariant (forall k. always ...) next to the plain ones
+            unary = [ref for ref, _ in upp.get(ps, "fluents") if ref[1] == "bool" and len(ref[2]) == 1 and ref[2][0][0] == "user"]
+            if unary:
+                ref = rng.choice(unary)
+                v = ["k", ref[2][0]]
+                body = ["fl", ref, ["v"] + v]
+                if rng.random() < 0.5:
+                    body = ["not", body]
+                if rng.random() < 0.4:
+                    nullary = [r for r, _ in upp.get(ps, "fluents") if r[1] == "bool" and not r[2]]
+                    if nullary:
+                        body = ["or", body, ["fl", rng.choice(nullary)]]
+                ps = _with(ps, "traj", upp.get(ps, "traj") + [["forall", [v], ["always", body]]])
+        try:
+            ps = nonzero_divisors(rename_problem(ps, adversarial_renaming(rng, ps, comp)))
+            P, _ = build(ps)
+            if wellformed(P) is not None or not complib.supports(comp, P) or not complib.relevant(comp, P):
+                continue
+            canon = upp.enc_problem(P)
+            P2, _ = build(canon)
+            if upp.enc_problem(P2) != canon:
+                continue            # the stored (simplified) expressions must survive the round trip through the wire format
+        except Exception:
+            continue
+        return ["model", comp, canon]
+    return None
+
+
+def _ops(e):
+    out, stack = set(), [e]
+    while stack:
+        x = stack.pop()
+        out.add(x.node_type)
+        stack.extend(x.args)
+    return out
+
+
+def target_reached(comp, Q):
+    """is the compiled problem free of what the compiler removes (read off the compilers' docstrings)"""
+    if comp == "cer":
+        return not any(e.is_conditional() for a in Q.actions for e in a.effects)
+    if comp == "dcr":
+        return not any(OK.OR in _ops(c) or OK.IMPLIES in _ops(c) for c in [c for a in Q.actions for c in a.preconditions] + list(Q.goals))
+    if comp == "qr":
+        exprs = [c for a in Q.actions for c in a.preconditions] + [x for a in Q.actions for e in a.effects for x in (e.condition, e.value)]
+        exprs += list(Q.goals) + list(Q.trajectory_constraints)
+        return not any(OK.EXISTS in _ops(c) or OK.FORALL in _ops(c) for c in exprs) and \
+            not any(e.is_forall() for a in Q.actions for e in a.effects)
+    if comp == "sir":
+        return len(Q.state_invariants) == 0
+    if comp == "btr":
+        def bounded(t):
+            return (t.is_int_type() or t.is_real_type()) and (t.lower_bound is not None or t.upper_bound is not None)
+        return not any(bounded(f.type) for f in Q.fluents)
+    raise ValueError(comp)
+
+
+def compiled_view(Q):
+    """the compiled problem in the canonical view of complib.variants (C06's model correspondence) minus the variants"""
+    from itertools import product
+    goals = sorted((upx.enc_expr(g, sort_vars=True) for g in Q.goals), key=sexp.dumps)
+    traj = sorted((upx.enc_expr(t, sort_vars=True) for t in Q.trajectory_constraints), key=sexp.dumps)
+    init = []
+    em = Q.environment.expression_manager
+    for f in Q.fluents:
+        doms = [list(Q.objects(p.type)) if p.type.is_user_type() else [] for p in f.signature]
+        for combo in product(*doms):
+            v = Q.initial_value(em.FluentExp(f, tuple(em.ObjectExp(o) for o in combo)))
+            init.append([f.name, [o.name for o in combo], "undef" if v is None else upx.enc_val(v)])
+    init.sort(key=sexp.dumps)
+    return [["goals"] + goals, ["traj"] + traj, ["init"] + init]
+
+
+def run_model(payload):
+    """-> impl answer of a model case: the real compiled problem in C06's view (variants = origin, parameters, sorted
+    preconditions, effects) + the action names in ORDER with their origins + fluent names + judgement + back-map + target"""
+    _, comp, ps = payload
+    cname = MODEL_COMPILER[comp]
+    P, _ = build(ps)
+    if wellformed(P) is not None:
+        return ["skip"]
+    st, res = run_compile(cname, P)
+    if st in ("unsupported", "rejected"):
+        return ["skip"]
+    if st == "raised":
+        return ["raised", res]
+    Q = res.problem
+    oacts = list(P.actions)
+    names, variants, back_ok = [], [], True
+    for a in Q.actions:
+        ai = instance_of(Q, a)
+        if ai is None:
+            return ["skip"]
+        b = res.map_back_action_instance(ai)
+        origin = "_" if b is None else b.action.name
+        if b is not None and b.action not in oacts:
+            back_ok = False
+        names.append([a.name, origin])
+        pre = sorted((upx.enc_expr(c, sort_vars=True) for c in a.preconditions), key=sexp.dumps)
+        variants.append(["variant", origin, [[p.name, upx.enc_ty(p.type)] for p in a.parameters], ["pre"] + pre,
+                         ["effs"] + [upp.enc_effect(e) for e in a.effects]])
+    variants.sort(key=sexp.dumps)
+    r = wf_report(Q)
+    return ["compiled", ["variants"] + variants] + compiled_view(Q) + [
+        ["names"] + names, ["fluents"] + [f.name for f in Q.fluents],
+        ["wf", "T", "_"] if r is None else ["wf", "F", r[0]],
+        ["back-ok", "T" if back_ok else "F"], ["target", "T" if target_reached(comp, Q) else "F"]]
+
+
+# ------------------------------------------------------------------------------------------------
 # interface
 # ------------------------------------------------------------------------------------------------
 
-QUICK = {"fresh": 700, "result": 150, "problems": 110}
-THOROUGH = {"fresh": 12000, "result": 1500, "problems": 1600}
+QUICK = {"fresh": 700, "result": 150, "problems": 110, "models": 100}
+THOROUGH = {"fresh": 12000, "result": 1500, "problems": 1600, "models": 1000}
 CHEAP = ["grounder", "cond", "disj", "neg", "quant", "utf", "bounded", "inv", "undef", "pipe-qg", "pipe-qcdn", "pipe-gc", "traj",
          "t2s", "d2p", "d2p"]
 
@@ -798,7 +1198,7 @@ def negation_chain_cases():
     remover must name the negation of `a` past BOTH not_a_0 and not_a_1 whichever was handed out first)"""
     import itertools
     for order in itertools.permutations(["a_1", "a_0", "a"]):
-        for extra in ([], ["not_a_0"]):
+        for extra in ([], ["not_a_0"], ["not_a_0_0"], ["not_a_1_0"], ["not_a_0_0", "not_a_1_0", "not_a_0_1"]):
             decl = ["a_1", "a_0", "a", "not_a", "done"] + extra
             refs = {n: [n, "bool", []] for n in decl}
             pre = [["not", ["fl", refs[n]]] for n in order]
@@ -807,19 +1207,54 @@ def negation_chain_cases():
                    ["actions", act], ["goals", ["fl", refs["done"]]], ["traj"], ["metrics"]]
 
 
+def grounding_clash_cases():
+    """deterministic: move(a_b, c) and move(a, b_c) flatten to move_a_b_c; the problem also declares move_a_b_c_0 (and _1) as
+    an action, a fluent or an object -- the second instance must skip the first one's name AND the declared ones"""
+    T = ["user", "T"]
+    f = ["f", "bool", [T]]
+    objs = [["a_b", "T"], ["c", "T"], ["a", "T"], ["b_c", "T"]]
+    move = ["action", "move", [["x", T], ["y", T]], ["pre", ["not", ["fl", f, ["p", "y", T]]]],
+            ["effs", ["eff", "assign", ["fl", f, ["p", "x", T]], ["b", "T"], ["b", "T"], []]]]
+    for kd in ("action", "fluent", "object"):
+        for names in (["move_a_b_c_0"], ["move_a_b_c_0", "move_a_b_c_1"], ["move_a_b_c_1"]):
+            o, fl, acts = list(objs), [[f, ["b", "F"]]], [move]
+            for n in names:
+                if kd == "action":
+                    acts.append(["action", n, [], ["pre"], ["effs", ["eff", "assign", ["fl", f, ["o", "c", "T"]], ["b", "T"], ["b", "T"], []]]])
+                elif kd == "fluent":
+                    fl.append([[n, "bool", []], ["b", "F"]])
+                else:
+                    o.append([n, "T"])
+            yield ["problem", "p", ["types", ["T", "_"]], ["objects"] + o, ["fluents"] + fl, ["init"], ["actions"] + acts,
+                   ["goals", ["fl", f, ["o", "a", "T"]]], ["traj"], ["metrics"]]
+
+
 def cases(rng, tier):
     n = QUICK if tier == "quick" else THOROUGH
+    for ps in grounding_clash_cases():
+        for cn in ("grounder", "pipe-gc", "traj"):
+            yield ["compile", cn, ps]
     neg = [c for c in CHEAP if c in ("neg", "pipe-qcdn")]
     for ps in negation_chain_cases():
         for cn in (neg or CHEAP[:1]):
             yield ["compile", cn, ps]
-    for kind, (a, b, c) in enumerate(zip(*[_spread(n[k], 10) for k in ("fresh", "result", "problems")])):
+    mi = 0
+    for kind, (a, b, c, d) in enumerate(zip(*[_spread(n[k], 10) for k in ("fresh", "result", "problems", "models")])):
+        for _ in range(d):
+            # the compilers that Core/Compile/Named.lean names (complib.MODELLED has grown since: grounder, ncr)
+            named = [c for c in complib.MODELLED if c in ("cer", "dcr", "sir", "btr", "qr")]
+            comp = named[mi % len(named)]
+            mi += 1
+            mc = gen_model_case(rng, comp)
+            if mc is not None:
+                yield mc
         for _ in range(a):
             yield gen_fresh(rng)
         for _ in range(b):
             yield gen_result(rng)
         for _ in range(c):
             ps = gen_planted(rng) if rng.random() < 0.3 else gen_problem(rng)
+            ps = plant_suffix_names(rng, ps)
             try:
                 build(ps)
             except Exception:
@@ -827,6 +1262,13 @@ def cases(rng, tier):
             cs = ["grounder"] + rng.sample(CHEAP[1:], 3)
             for cn in cs:
                 yield ["compile", cn, ps]
+            # the judgement itself: the real compiled problem of two of these compilations, as it is and damaged
+            plain = [x for x in cs if x not in DURATIVE]
+            for j, cn in enumerate(rng.sample(plain, min(2, len(plain)))):
+                if j == 0:
+                    yield ["wfcheck", cn, ps, ["none", "0"]]
+                if j == 1 or len(plain) < 2:
+                    yield ["wfcheck", cn, ps, [rng.choice(MUTATIONS), str(rng.randrange(1000))]]
 
 
 def _spread(n, k):
@@ -907,6 +1349,10 @@ def _run(payload):
                 new = [n for n in declared if n not in orig]
                 r = (["unique", _unique(declared), ["new", str(len(new))]],
                      ["declared", ["names"] + declared, ["orig"] + [n for _, n in all_names(P)]])
+    elif h == "wfcheck":
+        r = run_wfcheck(payload)
+    elif h == "model":
+        r = (run_model(payload), ["compile-model", payload[1], payload[2]])
     else:
         raise ValueError(h)
     _cache[key] = r
@@ -951,7 +1397,26 @@ def nontrivial(payload, ans):
             joins = ["_".join(a[1:]) for a in ans[1:-1]]
             return len(set(joins)) < len(joins) or any(a[0] != "_".join(a[1:]) for a in ans[1:-1])
         return ans[0] == "unique" and ans[2][1] != "0"       # the compiler declared names the input did not have
+    if h == "wfcheck":
+        # a damaged compiled problem that is judged ill-formed
+        return isinstance(ans, list) and ans[0] == "wf" and ans[1] == "F"
+    if h == "model":
+        # the compilation handed out at least one name that is not the name of the action it comes from
+        return isinstance(ans, list) and ans[0] == "compiled" and any(n != o for n, o in _section(ans, "names"))
     return False
+
+
+def _section(ans, key):
+    for x in ans[1:]:
+        if isinstance(x, list) and x and x[0] == key:
+            return x[1:]
+    return []
+
+
+def compare(model_ans, impl_ans):
+    if isinstance(impl_ans, list) and impl_ans and impl_ans[0] == "skip" and len(impl_ans) == 1:
+        return True         # a model case the real compiler does not accept (outside the kind / documented rejection)
+    return model_ans == impl_ans
 
 
 def stats(payload, ans):
@@ -966,6 +1431,21 @@ def stats(payload, ans):
                 t.append("grounder:two-instances-share-joined-name")
             if any(a[0] != "_".join(a[1:]) for a in ans[1:-1]):
                 t.append("grounder:counter-suffix-used")
+    elif h == "wfcheck":
+        if isinstance(ans, list) and ans[0] == "wf":
+            t.append(f"wfcheck:{payload[3][0]}:{'well-formed' if ans[1] == 'T' else 'ill-formed:' + ans[2]}")
+        else:
+            t.append(f"wfcheck:skip:{ans[1] if isinstance(ans, list) and len(ans) > 1 else ans}")
+    elif h == "model":
+        st = ans[0] if isinstance(ans, list) else str(ans)
+        t.append(f"model:{payload[1]}:{st}")
+        if st == "compiled":
+            names = _section(ans, "names")
+            if any(n != o and o != "_" for n, o in names):
+                t.append("model:counter-suffix-used")
+            if any(o == "_" for n, o in names):
+                t.append("model:fake-goal-actions")
+            t.append("model:target-" + _section(ans, "target")[0])
     elif h == "fresh":
         if _fresh_entered_search(payload):
             t.append("fresh:counter-search")
@@ -981,6 +1461,9 @@ def oracle(payload):
     h = payload[0]
     if h == "compile":
         v, _ = check_compile(payload[1], payload[2])
+        return v
+    if h == "model":
+        v, _ = check_compile(MODEL_COMPILER[payload[1]], payload[2])
         return v
     if h == "fresh":
         try:
@@ -1017,6 +1500,8 @@ def _nested_fluent(e):
 
 def known_cause(payload):
     """id of the listed finding (known_findings.json) whose cause predicate this case satisfies"""
+    if payload[0] == "model":
+        payload = ["compile", MODEL_COMPILER[payload[1]], payload[2]]
     if payload[0] != "compile":
         return None
     cname, ps = payload[1], payload[2]
@@ -1039,21 +1524,36 @@ def known_cause(payload):
 
 
 MANIFEST = {
-    "level_text": ("Lean 4 theorems (Props/C08.lean) over executable models of utils.get_fresh_name, of the naming discipline of a "
-                   "compiler (requests answered against the name set of the problem under construction, as the repaired "
-                   "GrounderHelper does) and of the CompilerResult decision table: the counter search terminates without fuel "
-                   "and returns a name outside the set, any sequence of fresh-named additions keeps all names pairwise distinct "
-                   "whatever separators the identifiers contain (with a kernel-checked clash for the stale-set discipline of the "
-                   "unrepaired grounder: move(a_b,c) / move(a,b_c)), and a result with a problem and an action map-back has a "
-                   "plan back-conversion equal to replace_action_instances. 'Every reference declared' is proved for the "
-                   "parameter substitution of grounding only (partial). The models are tied to the code by a differential "
-                   "correspondence check; every compiler is additionally run on adversarially renamed problems under an "
-                   "oracle of the property (uniqueness, declaredness, back-conversion) on the real code."),
+    "level_text": ("Lean 4 theorems (Props/C08.lean, Props/C08Models.lean). Naming: over executable models of utils.get_fresh_name, "
+                   "of the naming discipline of a compiler (requests answered against the name set of the problem under "
+                   "construction, as the repaired GrounderHelper does) and of the CompilerResult decision table: the counter search "
+                   "terminates without fuel and returns a name outside the set, any sequence of fresh-named additions keeps all "
+                   "names pairwise distinct whatever separators the identifiers contain (with a kernel-checked clash for the "
+                   "stale-set discipline of the unrepaired grounder: move(a_b,c) / move(a,b_c)), and a result with a problem and an "
+                   "action map-back has a plan back-conversion equal to replace_action_instances. Well-formedness: a decidable "
+                   "judgement WellFormed on problem syntax (all names of types / objects / fluents / actions pairwise distinct; every "
+                   "fluent with its arity, object, parameter and type referenced by a precondition, effect, goal, trajectory "
+                   "constraint, initial value, default or metric is declared) and, for the NAMED models of five compilers "
+                   "(ConditionalEffectsRemover, DisjunctiveConditionsRemover incl. its fake goal fluent and fake actions, "
+                   "StateInvariantsRemover, BoundedTypesRemover, QuantifiersRemover), for all problems: a well-formed metric-free "
+                   "problem compiles to a well-formed problem, the map-back is total and lands in the original action list, and the "
+                   "compiled problem is inside the compiler's target (no conditional effect; no disjunction in a precondition or "
+                   "goal w.r.t. the DNF walker's postcondition; no quantifier / forall effect; no state invariant; no bounded "
+                   "fluent type); closed under pipeline composition. Judgement, named models and naming models are tied to the code "
+                   "by a differential correspondence check (incl. the judgement on damaged real compiled problems); every compiler "
+                   "is additionally run on adversarially renamed problems under an oracle of the property (uniqueness, "
+                   "declaredness, back-conversion) on the real code."),
     "level_note": ("Trusted: Lean kernel; axioms propext, Classical.choice, Quot.sound; the correspondence harness. Partial: the "
-                   "transformations of the compilers are not modelled (oracle on the real code only: 12 compilers and 3 pipelines); "
-                   "the multi-agent, interpreted-function, conformant (KS0) and tarski compilers are not exercised; three open "
-                   "findings (usertype-fluents remover on metrics, timed-to-sequential on forall effects, durative-to-processes on "
-                   "nested fluent arguments) are excluded by cause predicates."),
+                   "well-formedness theorems cover five of the compilers (models of C06/C07 plus names) on metric-free problems "
+                   "(hypothesis-free for the simplifier model of C11 and the DNF walker of C12 as the check runs them; for the "
+                   "targets of the disjunctive-conditions and state-invariants removers the simplifier is assumed to create no "
+                   "disjunction / no state invariant, and the DNF walker's postcondition on the conditions it is applied to is a "
+                   "hypothesis); the grounder's transformation and the other compilers (negative-conditions, "
+                   "usertype-fluents, trajectory-constraints, undefined-initial-numeric removers, the temporal ones) are covered by "
+                   "the oracle on the real code only (12 compilers and 3 pipelines); the multi-agent, interpreted-function, conformant "
+                   "(KS0) and tarski compilers are not exercised; three open findings (usertype-fluents remover on metrics, "
+                   "timed-to-sequential on forall effects, durative-to-processes on nested fluent arguments) are excluded by cause "
+                   "predicates."),
     "technique": "Lean 4 proof + model/code correspondence + property oracle over all compilers",
     "design_ref": "DESIGN.md §5 C08",
 }
